@@ -267,12 +267,24 @@ def d3(cx: Cx, ob: Ob) -> None:
                 if w is not None and first_write is None:
                     first_write = (i, ev, ctx, w)
     calls = []
+    probe_seen: set = set()
     for i, (ev, ctx) in enumerate(flat):
         for t in s.syn.get(ev.line, ()):
             for c in subterms(t):
                 if op(c) == "call" and c[1] in (func, ("lv", "func")):
                     # a probe of the HEADER cell (to word a warning) is not a conversion of the column
                     if any(op(x) == "lv" and "header" in x[1] for x in subterms(c[2][0])) if c[2] else False:
+                        # ... but the callable carries the caller's strict flag: on an ordinary header label it
+                        # raises under strict=True unless the probe is shielded
+                        if not ev.cov and ("probe", ev.line) not in probe_seen:
+                            probe_seen.add(("probe", ev.line))
+                            ob.violate(
+                                fn.qualname,
+                                where(fn, ev.line),
+                                "the conversion callable is applied to the HEADER cell outside any try: it has the caller's strict flag bound, so file_compress / file_expand(strict=True, header=True) raises on an ordinary column title although every data cell converts",
+                                witness="header 'uri', strict=True: CompressionError('uri') before a single row is read",
+                                detail="header-probe-raises",
+                            )
                         continue
                     calls.append((i, ev, ctx))
     if not calls:
